@@ -483,3 +483,301 @@ def d18_8(ctx):
             if not need <= keys:
                 n_bad.append((r.lineno, sorted(need - keys)))
     ctx.check(not n_bad, ckey(pt, "record-keys"), pt.node, "every record carries file_type, file_number, element_number, element_count, tag", f"records missing keys the request builders read: {n_bad}")
+
+
+# ---------------------------------------------------------------- D18.9: address records and their consumers agree
+def _group_shapes(pat):
+    """{group name: {"optional": bool, "digits": (lo, hi) | None, "alts": [str] | None}} from the regex AST."""
+    import re._parser as sre  # noqa
+    import re._constants as C  # noqa
+
+    tree = sre.parse(pat)
+    names = {gid: k for k, gid in tree.state.groupdict.items()}
+    out = {}
+
+    def lits(seq):
+        seq = list(seq)
+        return "".join(chr(v) for o, v in seq) if seq and all(o is C.LITERAL for o, v in seq) else None
+
+    def visit(items, optional):
+        for op, av in items:
+            if op is C.SUBPATTERN:
+                gid, _, _, sub = av
+                subl = list(sub)
+                if gid in names:
+                    shape = {"optional": optional, "digits": None, "alts": None}
+                    if len(subl) == 1 and subl[0][0] in (C.MAX_REPEAT, C.MIN_REPEAT):
+                        lo, hi, inner = subl[0][1]
+                        il = list(inner)
+                        if len(il) == 1 and il[0][0] is C.IN and any(x == (C.CATEGORY, C.CATEGORY_DIGIT) for x in il[0][1]) and lo >= 1:
+                            shape["digits"] = (lo, hi)
+                    elif len(subl) == 1 and subl[0][0] is C.BRANCH:
+                        alts = [lits(b) for b in subl[0][1][1]]
+                        if all(a is not None for a in alts):
+                            shape["alts"] = alts
+                    elif len(subl) == 1 and subl[0][0] is C.IN and all(o is C.LITERAL for o, v in subl[0][1]):
+                        shape["alts"] = [chr(v) for o, v in subl[0][1]]
+                    elif lits(subl) is not None:
+                        shape["alts"] = [lits(subl)]
+                    out[names[gid]] = shape
+                visit(sub, optional)
+            elif op in (C.MAX_REPEAT, C.MIN_REPEAT):
+                visit(av[2], optional or av[0] == 0)
+            elif op is C.BRANCH:
+                for b in av[1]:
+                    visit(b, True)
+
+    visit(tree, False)
+    return out
+
+
+class _Records:
+    """Abstract address records returned by parse_tag: per key a finite list of sample values that covers the
+    distinctions consumers can make (None / digit strings incl. "0" / integers incl. 0 / table values), or None if unknown."""
+
+    def __init__(self, ctx, fn):
+        self.ctx, self.fn, self.g = ctx, fn, ctx.cfg(fn.node)
+        self.regexes = {k: _group_shapes(v[0]) for k, v in _regexes(ctx).items()}
+        self.assigns = [n for n in walk(fn.node) if isinstance(n, ast.Assign) and len(n.targets) == 1 and isinstance(n.targets[0], ast.Name)]
+
+    def reaching(self, name, at):
+        """Textually last simple assignment to `name` before line `at` (parse_tag is a cascade of straight-line blocks)."""
+        c = [a for a in self.assigns if a.targets[0].id == name and a.lineno < at]
+        return max(c, key=lambda a: a.lineno) if c else None
+
+    def group_guard(self, var, group, ret_node):
+        """True / False when the return is dominated by the not-None / None side of a test of var.group(group); else None."""
+        for t in self.g.nodes:
+            if t.kind != "test" or not isinstance(t.ast, ast.Compare) or len(t.ast.ops) != 1:
+                continue
+            l, op, r = t.ast.left, t.ast.ops[0], t.ast.comparators[0]
+            if not (self._is_group(l, var, group) and isinstance(r, ast.Constant) and r.value is None):
+                continue
+            pos = isinstance(op, (ast.IsNot, ast.NotEq))
+            if not pos and not isinstance(op, (ast.Is, ast.Eq)):
+                continue
+            for br in (True, False):
+                if self.g.branch_dominates(t, br, ret_node):
+                    return br == pos
+        return None
+
+    @staticmethod
+    def _is_group(e, var=None, group=None):
+        ok = isinstance(e, ast.Call) and isinstance(e.func, ast.Attribute) and e.func.attr == "group" and isinstance(e.func.value, ast.Name) and len(e.args) == 1 and isinstance(e.args[0], ast.Constant)
+        if not ok:
+            return False
+        return (var is None or e.func.value.id == var) and (group is None or e.args[0].value == group)
+
+    def regex_of(self, var, at):
+        a = self.reaching(var, at)
+        if a is not None and isinstance(a.value, ast.Call) and isinstance(a.value.func, ast.Attribute) and isinstance(a.value.func.value, ast.Name):
+            return a.value.func.value.id
+        return None
+
+    def samples(self, e, ret, depth=0):
+        """(samples | None, presence) where presence in {"present", "absent", "maybe", None} tells whether a value derived from
+        an optional regex group is known to exist at this return."""
+        ctx, fn = self.ctx, self.fn
+        line = ret.ast.lineno
+        c = ctx.folder.eval(e, fn.module)
+        if c is not UNKNOWN and not isinstance(c, ClassRef):
+            return [c], None
+        if depth > 6:
+            return None, None
+        if isinstance(e, ast.Name):
+            a = self.reaching(e.id, line)
+            return self.samples(a.value, ret, depth + 1) if a is not None else (None, None)
+        if self._is_group(e):
+            var, group = e.func.value.id, e.args[0].value
+            shape = self.regexes.get(self.regex_of(var, line) or "", {}).get(group)
+            if shape is None:
+                return None, None
+            guard = self.group_guard(var, group, ret)
+            if guard is False:
+                return [None], "absent"
+            if shape["digits"]:
+                vals = [s for s in ("0", "1", "7", "15", "16", "255", "4095") if shape["digits"][0] <= len(s) <= shape["digits"][1]]
+            elif shape["alts"]:
+                vals = list(shape["alts"])
+            else:
+                return None, None
+            if shape["optional"] and guard is None:
+                return [None] + vals, "maybe"
+            return vals, "present"
+        if isinstance(e, ast.Call) and isinstance(e.func, ast.Attribute) and e.func.attr in ("upper", "lower") and not e.args:
+            s, p = self.samples(e.func.value, ret, depth + 1)
+            if s is None or any(not isinstance(x, str) for x in s):
+                return None, p
+            return sorted({getattr(x, e.func.attr)() for x in s}), p
+        if isinstance(e, ast.Call) and isinstance(e.func, ast.Name) and e.func.id == "int" and len(e.args) == 1:
+            s, p = self.samples(e.args[0], ret, depth + 1)
+            if s is None or any(not isinstance(x, (str, int)) for x in s):
+                return None, p
+            return [int(x) for x in s], p
+        if isinstance(e, ast.Subscript):
+            table = ctx.folder.eval(e.value, fn.module)
+            if isinstance(table, dict) and table:
+                s, p = self.samples(e.slice, ret, depth + 1)
+                if s is not None and all(k in table for k in s):
+                    return [table[k] for k in s], p
+                return list(dict.fromkeys(table.values())), p
+            return None, None
+        if isinstance(e, ast.BinOp):
+            k = ctx.folder.eval(e.right, fn.module)
+            s, p = self.samples(e.left, ret, depth + 1)
+            if s is not None and isinstance(k, int) and k and all(isinstance(x, int) for x in s):
+                if isinstance(e.op, ast.Mod):
+                    return sorted({0, 1, k - 1} | {x % k for x in s}), p
+                if isinstance(e.op, ast.FloorDiv):
+                    return sorted({x // k for x in s}), p
+            return None, p
+        return None, None
+
+    def records(self):
+        out = []
+        for n in self.g.nodes:
+            if n.kind == "stmt" and isinstance(n.ast, ast.Return) and isinstance(n.ast.value, ast.Dict):
+                rec = {}
+                for k, v in zip(n.ast.value.keys, n.ast.value.values):
+                    key = self.ctx.folder.eval(k, self.fn.module) if k is not None else UNKNOWN
+                    if isinstance(key, str):
+                        rec[key] = self.samples(v, n)
+                out.append((n, rec))
+        return out
+
+
+def _inline_locals(func, expr, depth=0):
+    """Substitute locals of `func` that are assigned exactly once (plain `name = expr`) into `expr`."""
+    import copy
+
+    single = {}
+    counts = {}
+    for st in walk(func):
+        if isinstance(st, ast.Assign) and len(st.targets) == 1 and isinstance(st.targets[0], ast.Name):
+            counts[st.targets[0].id] = counts.get(st.targets[0].id, 0) + 1
+            single[st.targets[0].id] = st.value
+        elif isinstance(st, (ast.AugAssign, ast.AnnAssign, ast.For)) :
+            for t in walk(st.target):
+                if isinstance(t, ast.Name):
+                    counts[t.id] = counts.get(t.id, 0) + 2
+        elif isinstance(st, ast.Assign):
+            for tg in st.targets:
+                for t in walk(tg):
+                    if isinstance(t, ast.Name):
+                        counts[t.id] = counts.get(t.id, 0) + 2
+
+    class Sub(ast.NodeTransformer):
+        def __init__(self, d):
+            self.d = d
+
+        def visit_Name(self, n):
+            if isinstance(n.ctx, ast.Load) and counts.get(n.id) == 1 and self.d < 6:
+                return Sub(self.d + 1).visit(copy.deepcopy(single[n.id]))
+            return n
+
+    return ast.fix_missing_locations(Sub(depth).visit(copy.deepcopy(expr)))
+
+
+def _record_decisions(ctx):
+    """[(label, function, condition expr, anchor node)] - the conditions under which consumers treat a record as a bit /
+    sub-element address: whatever dominates the `get_bit` extraction in _parse_read_reply, and the test choosing the single-bit
+    mask in writeable_value (the whole-word exception for PRE/ACC is D18.6's truth table)."""
+    out = []
+    pr = ctx.model.func(f"{SLC}:_parse_read_reply")
+    g = ctx.cfg(pr.node)
+    for n in g.nodes:
+        if n.kind == "stmt" and n.ast is not None and any(isinstance(c, ast.Call) and call_name(c) == "get_bit" for c in walk(n.ast)):
+            conds = []
+            for t in g.nodes:
+                if t.kind == "test" and t.ast is not None:
+                    for br in (True, False):
+                        if g.branch_dominates(t, br, n):
+                            conds.append(t.ast if br else ast.UnaryOp(op=ast.Not(), operand=t.ast))
+            if conds:
+                e = conds[0] if len(conds) == 1 else ast.BoolOp(op=ast.And(), values=conds)
+                out.append(("read:get_bit", pr, e, n.ast))
+    wv = ctx.model.func(f"{SLC}:writeable_value")
+    for n in walk(wv.node):
+        if isinstance(n, ast.IfExp) and isinstance(n.body, ast.Call) and attr_path(n.body.func) == "UINT.encode" and n.body.args and isinstance(n.body.args[0], ast.BinOp) and isinstance(n.body.args[0].op, (ast.Pow, ast.LShift)):
+            out.append(("write:bit-mask", wv, n.test, n))
+    return out
+
+
+@rule(P, "D18.9", "T-REC", floor=25)
+def d18_9(ctx):
+    """Each address record of parse_tag is marked as bit/sub-element form exactly when the matched address carries one,
+    and every consumer decides bit-vs-word the same way for every value such a record can hold."""
+    import itertools
+
+    pt = ctx.model.func(f"{SLC}:parse_tag")
+    R = _Records(ctx, pt)
+    recs = R.records()
+    marks = {}
+    for n, rec in recs:
+        key = ckey(pt, f"record@{_rec_label(R, n)}")
+        af = rec.get("address_field", (None, None))[0]
+        if not af or len(af) != 1 or af[0] not in (2, 3):
+            ctx.violation(key + "#mark", n.ast, f"record does not carry a constant address_field of 2 (word) or 3 (bit / sub-element): {af}")
+            continue
+        marks[n] = af[0] == 3
+        se = rec.get("sub_element")
+        presence = "absent" if se is None else (se[1] or ("absent" if se[0] in ([0], [None]) else "present" if se[0] is not None else None))
+        if presence not in ("present", "absent"):
+            ctx.undecided(key + "#mark", n.ast, f"whether this record has a sub-element is not determined by a dominating group test ({presence})")
+            continue
+        ctx.check((presence == "present") == marks[n], key + "#mark", n.ast, f"address_field={af[0]} with sub-element {presence}",
+                  f"record is marked address_field={af[0]} although the matched address has its bit / sub-element {presence}: replies and masks for it are built for the other form", presence=presence)
+    decisions = _record_decisions(ctx)
+    if len(decisions) < 2:
+        ctx.undecided(ckey(pt, "consumers"), pt.node, f"bit/word decisions found: {[d[0] for d in decisions]}")
+    for label, fn, cond, anchor in decisions:
+        e = _inline_locals(fn.node, cond)
+        arg = fn.node.args.args[0].arg
+        used = set()
+        for x in walk(e):
+            if isinstance(x, ast.Subscript) and atom_name(x.value) == arg and isinstance(x.slice, ast.Constant):
+                used.add(x.slice.value)
+            if isinstance(x, ast.Call) and isinstance(x.func, ast.Attribute) and x.func.attr == "get" and atom_name(x.func.value) == arg and x.args and isinstance(x.args[0], ast.Constant):
+                used.add(x.args[0].value)
+        for n, rec in recs:
+            if n not in marks:
+                continue
+            key = ckey(fn, f"{label}@{_rec_label(R, n)}")
+            fields = sorted(k for k in used if k in rec)
+            if any(rec[k][0] is None for k in fields):
+                ctx.undecided(key, anchor, f"record field values not enumerable: {[k for k in fields if rec[k][0] is None]}")
+                continue
+            bad = None
+            n_eval = 0
+            for combo in itertools.product(*[rec[k][0] for k in fields]):
+                sample = dict(zip(fields, combo))
+                v = ctx.folder.eval(e, fn.module, env={arg: sample})
+                n_eval += 1
+                if v is UNKNOWN:
+                    bad = (sample, "not evaluable")
+                    break
+                if bool(v) != marks[n]:
+                    bad = (sample, bool(v))
+                    break
+            if bad is not None and bad[1] == "not evaluable":
+                ctx.undecided(key, anchor, f"`{src(e)}` is not evaluable on record {bad[0]}")
+                continue
+            ctx.check(bad is None, key, anchor, f"`{src(e)}` is {marks[n]} for all {n_eval} value combinations of this {'bit' if marks[n] else 'word'} record",
+                      f"`{src(e)}` evaluates to {bad[1] if bad else None} for the {'bit / sub-element' if marks[n] else 'word'} address record {bad[0] if bad else None} "
+                      f"({_rec_label(R, n)}): the {'addressed bit is not extracted / masked' if marks[n] else 'word is treated as a bit'}", sample=str(bad))
+
+
+def _rec_label(R, n):
+    """Stable label of a record: regex it comes from + guard side, not a line number."""
+    line = n.ast.lineno
+    var = None
+    for a in sorted(R.assigns, key=lambda a: -a.lineno):
+        if a.lineno < line and isinstance(a.value, ast.Call) and isinstance(a.value.func, ast.Attribute) and a.value.func.attr in ("fullmatch", "match", "search"):
+            var = a
+            break
+    rx = var.value.func.value.id if var is not None and isinstance(var.value.func.value, ast.Name) else "?"
+    side = ""
+    if var is not None:
+        gd = R.group_guard(var.targets[0].id, "sub_element", n)
+        side = {True: "+sub", False: "-sub", None: ""}[gd]
+    return rx + side
